@@ -23,6 +23,7 @@ class Trace:
         self.spec = spec
         self.rounds = []  # one dict per Optimizer instance, in creation order
         self.first = None  # outputs of compute_parameters_first_round
+        self.first_series = None  # copies of the supply series at that instant
         self.second = None
         self.third = None
         self.herds = []  # CalculateFeedAndMeat captures
@@ -224,6 +225,12 @@ class Capture:
                         "inputs": copy.deepcopy(ci),
                         "herd0": out[6],
                     }
+                    from . import monitors
+
+                    try:
+                        t.first_series = monitors.supply_series(out[1], out[0])
+                    except (KeyError, AttributeError, TypeError):
+                        t.first_series = None
                 return out
 
             return compute_parameters_first_round
@@ -339,6 +346,7 @@ class Capture:
                             "biofuel": args[0], "feed": args[1], "increase": args[2], "max_biofuel": args[3],
                             "max_feed": args[4], "total": args[5],
                             "out_biofuel": np.array(out[0], float).copy(), "out_feed": np.array(out[1], float).copy(),
+                            "rounds_before": len(t.rounds),
                         }
                     )
                 return out
